@@ -4,13 +4,14 @@ import json, os
 ROOT = os.path.dirname(os.path.dirname(os.path.abspath(__file__)))
 props = [json.loads(l) for l in open(os.path.join(ROOT, "properties.jsonl")) if l.strip()]
 cfg = json.load(open(os.path.join(ROOT, "checks.json")))
-hooks = cfg.get("hooks_commits", [])
+import subprocess
+hooks = subprocess.run(["git", "-C", "/repo", "log", "--reverse", "--format=%H", "--grep=^verif:"], capture_output=True, text=True).stdout.split()
 m = {
     "version": 1,
     "setup_cmd": "./setup.sh",
     "hooks": {
         "guard": "verif",
-        "enable": "rovc loads /repo with `-tags verif`; the tag only adds comment-only contract files verif_contracts*.go (and, for C19 replays, one test-only setter)",
+        "enable": "rovc loads /repo with `-tags verif`; the tag only adds comment-only contract files verif_contracts*.go (package clause and //@ comments, no code); no instrumentation hook exists",
         "baseline_off_cmd": "for m in $(cat /w/out/gomods.txt); do MF=$(cd /repo/$m && . /w/out/goenv.sh && gomodflag); (cd /repo/$m && go test $MF -json -vet=off -count=1 -timeout 25m ./...); done",
         "source_commits": hooks,
         "add_only": True,
